@@ -92,11 +92,48 @@ class Case:
         return q, span
 
 
+def family_cases(full):
+    scal = {"i": 0, "j": 0, "t": -1, "s": 2, "u": 3, "n": 3}
+    arr1 = {a: [((k * 5 + 3 * q) % 9) - 1 for k in range(A_HI - A_LO + 1)] for q, a in enumerate(ARRAYS1)}
+    return [Case(h, b, scal, arr1, [3, 5, 11], tag) for h, b, tag in family(full)]
+
+
 def names():
     n = minif.Names()
     for v in ALLVARS:
         n.id(v)
     return n
+
+
+def wavefront(di, dw, dr, order, kind="wr", trips=4):
+    """Nest with the OUTER loop parallelised over the rank-2 array m: the parallel variable i has distance `di`
+    between the write and the read (kind "wr") / second write (kind "ww"); the inner variable j appears with
+    constant offsets dw / dr.  order "ji" = m(j.., i..), "ij" = m(i.., j..)."""
+    def off(v, d):
+        return v if d == 0 else f"{v}{'+' if d > 0 else '-'}{abs(d)}"
+
+    def ref(dj, dii):
+        return f"m({off('j', dj)}, {off('i', dii)})" if order == "ji" else f"m({off('i', dii)}, {off('j', dj)})"
+    if kind == "wr":
+        inner = [f"  {ref(dw, 0)} = {ref(dr, di)} + b(j)"]
+    else:
+        inner = [f"  {ref(dw, 0)} = b(j) + i", f"  {ref(dr, di)} = a(j) - i"]
+    return f"do i = 2, {1 + trips}", ["do j = 1, 3"] + inner + ["enddo"], f"family:{kind}:{order}:di={di}:dw={dw}:dr={dr}"
+
+
+def family(full):
+    """the systematic family run first in every run (quick: a 76-member subset, thorough: all 126)"""
+    out = []
+    for order in ("ji", "ij"):
+        for di in (-2, -1, 0, 1, 2):
+            for dw in ((-1, 0, 1) if full else (0, 1)):
+                for dr in (-1, 0, 1):
+                    out.append(wavefront(di, dw, dr, order, "wr"))
+        for di in ((-2, -1, 0, 1, 2) if full else (-1, 0, 1, 2)):
+            for dr in ((-1, 0, 1) if full else (0, 1)):
+                if not (di == 0 and dr == 0):
+                    out.append(wavefront(di, 0, dr, order, "ww"))
+    return out
 
 
 class Gen:
@@ -231,6 +268,10 @@ class Gen:
             ("intdiv-subscript", [f"{A}(i/2+1) = {B}(i)"]),
             ("bound-scalar-written", [f"{t} = {B}(i)", f"{C}(i) = {t} + n"]),
         ]
+        if r.random() < 0.25:           # nest over the rank-2 array with distances in the parallel / inner variable
+            _, body, tag = wavefront(r.choice([-2, -1, -1, 0, 1, 1, 2]), r.choice([-1, 0, 1]), r.choice([-1, 0, 1]),
+                                     r.choice(["ji", "ij"]), r.choice(["wr", "wr", "ww"]))
+            return tag.replace("family:", "nest:"), body
         return r.choice(pats)
 
     def case(self):
